@@ -34,13 +34,13 @@ use crate::builders::{
   BusinessKnowledgeModelEvaluator, DecisionEvaluator, DecisionServiceEvaluator, InputDataContextEvaluator, InputDataEvaluator, ItemDefinitionContextEvaluator,
   ItemDefinitionEvaluator, ItemDefinitionTypeEvaluator,
 };
-use crate::errors::{err_read_lock_failed, err_write_lock_failed};
+use crate::errors::{err_cyclic_dependency, err_read_lock_failed, err_write_lock_failed};
 use dmntk_common::Result;
 use dmntk_feel::context::FeelContext;
 use dmntk_feel::values::Value;
 use dmntk_feel::{value_null, Name};
-use dmntk_model::model::Definitions;
-use std::collections::HashMap;
+use dmntk_model::model::{Definitions, DmnElement, Expression, ItemDefinition, NamedElement};
+use std::collections::{HashMap, HashSet};
 use std::sync::{Arc, RwLock, RwLockReadGuard};
 
 ///
@@ -74,9 +74,76 @@ pub struct ModelEvaluator {
   invocable_by_name: RwLock<HashMap<String, InvocableType>>,
 }
 
+/// Checks if there are no cycles in the requirements between decisions,
+/// business knowledge models and decision services,
+/// and in the type references between item definitions.
+/// Evaluators follow these dependencies recursively, so a cycle would never end.
+fn check_cyclic_dependencies(definitions: &Definitions) -> Result<()> {
+  // collects the type references of an item definition and all its components
+  fn type_refs(item_definition: &ItemDefinition, refs: &mut Vec<String>) {
+    if let Some(type_ref) = item_definition.type_ref() {
+      refs.push(format!("type {}", type_ref));
+    }
+    for item_component in item_definition.item_components() {
+      type_refs(item_component, refs);
+    }
+  }
+  // returns the first node found on a cycle reachable from specified node
+  fn find_cycle<'a>(node: &'a str, dependencies: &'a HashMap<String, Vec<String>>, path: &mut Vec<&'a str>, acyclic: &mut HashSet<&'a str>) -> Option<&'a str> {
+    if acyclic.contains(node) {
+      return None;
+    }
+    if path.contains(&node) {
+      return Some(node);
+    }
+    path.push(node);
+    for required in dependencies.get(node).map(|v| v.as_slice()).unwrap_or_default() {
+      if let Some(found) = find_cycle(required, dependencies, path, acyclic) {
+        return Some(found);
+      }
+    }
+    path.pop();
+    acyclic.insert(node);
+    None
+  }
+  let mut dependencies: HashMap<String, Vec<String>> = HashMap::new();
+  for decision in definitions.decisions() {
+    if let Some(id) = decision.id() {
+      let required_decisions = decision.information_requirements().iter().filter_map(|r| r.required_decision().as_ref());
+      let required_knowledge = decision.knowledge_requirements().iter().filter_map(|r| r.required_knowledge().as_ref());
+      dependencies.insert(id.clone(), required_decisions.chain(required_knowledge).map(|href| <&str>::from(href).to_string()).collect());
+    }
+  }
+  for decision_service in definitions.decision_services() {
+    if let Some(id) = decision_service.id() {
+      let required = decision_service.output_decisions().iter().chain(decision_service.encapsulated_decisions().iter());
+      dependencies.insert(id.clone(), required.map(|href| <&str>::from(href).to_string()).collect());
+    }
+  }
+  for business_knowledge_model in definitions.business_knowledge_models() {
+    if let Some(id) = business_knowledge_model.id() {
+      let required = business_knowledge_model.knowledge_requirements().iter().filter_map(|r| r.required_knowledge().as_ref());
+      dependencies.insert(id.clone(), required.map(|href| <&str>::from(href).to_string()).collect());
+    }
+  }
+  for item_definition in definitions.item_definitions() {
+    let mut refs = vec![];
+    type_refs(item_definition, &mut refs);
+    dependencies.insert(format!("type {}", item_definition.name()), refs);
+  }
+  let mut acyclic = HashSet::new();
+  for node in dependencies.keys() {
+    if let Some(found) = find_cycle(node, &dependencies, &mut vec![], &mut acyclic) {
+      return Err(err_cyclic_dependency(found.trim_start_matches("type ")));
+    }
+  }
+  Ok(())
+}
+
 impl ModelEvaluator {
   /// Creates an instance of [ModelEvaluator].
   pub fn new(definitions: &Definitions) -> Result<Arc<Self>> {
+    check_cyclic_dependencies(definitions)?;
     let model_evaluator = Arc::new(ModelEvaluator::default());
     model_evaluator
       .input_data_evaluator
